@@ -20,7 +20,7 @@ def main():
     ap = argparse.ArgumentParser()
     ap.add_argument("cmd"); ap.add_argument("id"); ap.add_argument("name"); ap.add_argument("wt"); ap.add_argument("pkg"); ap.add_argument("run")
     ap.add_argument("--needs", default=""); ap.add_argument("--checks", default=""); ap.add_argument("--tier", default="quick")
-    ap.add_argument("--skip-suite", action="store_true")
+    ap.add_argument("--skip-suite", action="store_true"); ap.add_argument("--no-checks", action="store_true")
     a = ap.parse_args()
     wt = a.wt
     out = os.path.join("/verif/seeded", a.name)
@@ -58,7 +58,7 @@ def main():
             rec("existing suite passes with the change (%.0fs; baseline always-fail tests ignored)" % (time.time() - t0), not bad, "\n".join(fails))
         finally:
             for f in demos: os.rename(os.path.join(wt, f + ".aside"), os.path.join(wt, f))
-    checks = [c for c in (a.checks or a.id).split(",") if c]
+    checks = [] if a.no_checks else [c for c in (a.checks or a.id).split(",") if c]
     detected = {}
     for f in demos: os.rename(os.path.join(wt, f), os.path.join(wt, f + ".aside"))
     try:
